@@ -226,6 +226,7 @@ def run_direct(repo, R):
         raise AnalysisError("FORMULA", "direct back-end: expected one return", top.where())
     out = E.returns[0][1]
     E.check_not_opaque(out, E.returns[0][0])
+    run_direct.last_combination = (out, cx, ctr)
     shifted = cx - ctr
     zeroth = Prod(shifted ** n * sp.exp(-a * shifted ** 2))
     want = LinearSum(cc * (cnorm * zeroth * F1 * F2))
@@ -337,6 +338,19 @@ def run_guards(repo, R, max_order):
             if "orders < 0" in t:
                 neg = True
     R.check(neg, "GUARD-DOMAIN", k.site, "negative orders rejected", "negative derivative orders are not rejected", where=k.where())
+    run_slots(repo, R)
+
+
+def run_slots(repo, R):
+    """SIBLING / SLOT: both back-ends receive the same arguments, which are the shell's own attributes of the same role."""
+    k = repo.func(KERNEL)
+    fn = k.node
+    direct = repo.func(DIRECT)
+    general = repo.func(GENERAL)
+    dcalls = calls_in(fn, direct.name)
+    gcalls = calls_in(fn, general.name)
+    if not dcalls or not gcalls:
+        raise AnalysisError("SLOT", "back-end calls not found in EvalDeriv.construct_array_contraction", k.where())
     # arguments handed to both back-ends agree (same slots)
     a1 = [ast.unparse(z) for z in gcalls[0].args]
     a2 = [ast.unparse(z) for z in dcalls[0].args]
